@@ -707,6 +707,8 @@ func advertisedHandled(c *Ctx, rule string) *Result {
 func ruleC19(c *Ctx) {
 	c.rule("C19-R1", "metadata wiring table for Metadata and MetadataWithSLO: EntityID, ACS endpoint (POST binding, index 1), SLO endpoint (POST binding), AuthnRequestsSigned, WantAssertionsSigned = !SkipSignatureValidation, protocolSupportEnumeration, key descriptor uses and base64(StdEncoding) of the reported certificates")
 	c.rule("C19-R2", "published keys = keys really used: decision-table agreement with the signer (C13) and the decrypter (C11); advertised methods ⊆ handled (C11-R1)")
+	c.rule("C19-R4", "configuration setters write exactly their own override field (shared setterContract)")
+	setterContract(c, "C19-R4")
 	c.rule("C19-R3", "validity: ValidUntil = sp.Clock.Now().UTC().Add(d); d is a time.Duration constant or a count multiplied by a time unit (an integer number of hours converted with time.Duration(x) alone is nanoseconds); default 7 days; non-positive request selects the default")
 	for _, fn := range []string{"(*SAMLServiceProvider).Metadata", "(*SAMLServiceProvider).MetadataWithSLO"} {
 		r := c.kernel(fn, "*")
@@ -951,4 +953,58 @@ func keyUnwrapFlow(c *Ctx, rule string, dk *Result) {
 	for id := range want {
 		c.check(seen[id], rule, fname, "transport "+id+" has an accepting path", "-", "seen", "no accepting path for key transport "+id)
 	}
+}
+
+// setterContract (shared: C13-R6, C14-R6, C19-R4): the decision tables range over the key-store fields; the two
+// configuration setters are what turns "the application configured key k for role r" into a field state. Each setter
+// stores its argument into its own override field on success and writes nothing else through the provider — so a key
+// configured for one role never leaks into the other role's slot, and a refused key changes nothing.
+func setterContract(c *Ctx, rule string) {
+	setters := []struct{ fn, field string }{
+		{"(*SAMLServiceProvider).SetSPKeyStore", "spKeyStoreOverride"},
+		{"(*SAMLServiceProvider).SetSPSigningKeyStore", "spSigningKeyStoreOverride"},
+	}
+	n := 0
+	for _, sd := range setters {
+		res := c.kernel(sd.fn, "*")
+		if res == nil {
+			continue
+		}
+		fname := shortFn(res.Root)
+		arg := res.paramVal(1)
+		for _, t := range res.Terms {
+			if t.Kind != "return" {
+				continue
+			}
+			pos := c.P.InstrPos(t.Instr)
+			var own, other []string
+			for _, e := range t.stores() {
+				if _, viaSP := rootOf(e.Addr).(*ParamV); !viaSP || ap(rootOf(e.Addr)) != "SP" {
+					continue
+				}
+				if fa, ok := e.Addr.(*FieldAddrV); ok && fa.Name == sd.field && ap(fa.X) == "SP" {
+					own = append(own, ap(e.Val))
+					if arg == nil || e.Val.Key() != arg.Key() {
+						other = append(other, "SP."+sd.field+" = "+ap(e.Val))
+					}
+					continue
+				}
+				other = append(other, apLval(e.Addr)+" = "+ap(e.Val))
+			}
+			for _, e := range t.St.events {
+				if e.Kind == EvMapUpdate && ap(rootOf(e.X)) == "SP" {
+					other = append(other, "map update on "+ap(e.X))
+				}
+			}
+			n++
+			if t.accepting(res.Root) {
+				c.check(len(own) == 1 && len(other) == 0, rule, fname, "success stores the argument into "+sd.field+" and nothing else", pos, "SP."+sd.field+" = argument",
+					fmt.Sprintf("setter writes %v %v: a key configured for one role ends up (also) in another slot, or not in its own", own, other))
+			} else {
+				c.check(len(own) == 0 && len(other) == 0, rule, fname, "a refused key store changes nothing", pos, "no store", fmt.Sprintf("rejecting path still writes %v %v", own, other))
+			}
+		}
+	}
+	c.count(rule+"/setter-paths", n)
+	c.floor(rule+"/setter-paths", 4)
 }
